@@ -9,7 +9,7 @@ import subprocess
 import time
 from pathlib import Path
 
-from harness.common import CACHE, VERIF
+from harness.common import CACHE, VERIF, quick_scale
 
 LEAN = VERIF / "lean"
 ALLOWED_AXIOMS = {"propext", "Classical.choice", "Quot.sound"}
@@ -245,7 +245,7 @@ def corr_c06(rep, tier):
 
     r = rng("C06", "corr")
     srcs = [p[0] + "\n" for p in corpus.xonsh_pairs()] + list(xonshgen.XONSH_STMTS)
-    for _ in range(300 if tier == "quick" else 6000):
+    for _ in range(300 * quick_scale() if tier == "quick" else 6000):
         x, _t, _k = xonshgen.gen_subproc(r)
         srcs.append(f"v = {x}\n")
     from harness.props import c06
@@ -280,7 +280,7 @@ def corr_peg(pid, n_quick=250, n_thorough=6000, verbose=False, **kw):
     def run(rep, tier):
         from harness import corr
 
-        cases = corr.peg_cases(_peg_sources(pid, tier, n_quick if tier == "quick" else n_thorough, **kw), verbose=verbose)
+        cases = corr.peg_cases(_peg_sources(pid, tier, n_quick * quick_scale() if tier == "quick" else n_thorough, **kw), verbose=verbose)
         bad = corr.run_peg_correspondence(rep, cases, name="recogniser-IR, verbose=True" if verbose else "recogniser-IR", verbose=verbose)
         for b in bad[:3]:
             rep.extra.setdefault("correspondence_disagreements", []).append(b)
@@ -353,7 +353,7 @@ def corr_helpers(pid, kinds):
         from harness.props import c11
 
         r = rng(pid, "helpers")
-        n = 1 if tier == "quick" else 20
+        n = quick_scale() if tier == "quick" else 20
         srcs = []
         if "macro" in kinds:
             for _ in range(250 * n):
@@ -396,7 +396,7 @@ def corr_pipeline(pid):
         from harness.props import c11
 
         r = rng(pid, "pipeline")
-        n = 300 if tier == "quick" else 6000
+        n = 300 * quick_scale() if tier == "quick" else 6000
         srcs = list(corpus.PY_STMTS) + list(c11.INVALID_SNIPPETS) + list(xonshgen.XONSH_STMTS) + [mutate.soup(r) for _ in range(n)]
         srcs += [mutate.damage(s, r) for s in corpus.PY_STMTS]
         bad = corr.run_pipeline_correspondence(rep, corr.pipeline_cases(srcs))
